@@ -18,6 +18,7 @@ import (
 	"github.com/vapourismo/knx-go/knx/knxnet"
 
 	"verif/internal/gateway"
+	"verif/internal/mcast"
 	"verif/internal/memsock"
 	"verif/internal/mon"
 	"verif/internal/spec"
@@ -293,6 +294,105 @@ func runScenario(sc scenario, judge bool) outcome {
 	return out
 }
 
+// realRouter is the loopback slice: the real knx.NewRouter on a per-process
+// multicast group; its transmissions are observed by an AF_PACKET capture
+// (timestamps carry capture jitter, so the bounds get a tolerance), busy
+// indications are injected as datagrams to the group.
+func realRouter(id int, G, burst int, pause, wait time.Duration) {
+	sig := fmt.Sprintf("real-router G=%d burst=%d pause=%v wait=%v", G, burst, pause, wait)
+	r.Crumb("C13 %s", sig)
+	attrs := map[string]string{"pause": pause.String(), "slice": "real-router"}
+	l, err := mcast.Open(id)
+	if err != nil {
+		r.Inconclusive("real-router slice: " + err.Error())
+		return
+	}
+	defer l.Close()
+	rt, err := knx.NewRouter(l.Group, knx.RouterConfig{PostSendPauseDuration: pause})
+	if err != nil {
+		r.Inconclusive("real-router slice: NewRouter: " + err.Error())
+		return
+	}
+	defer rt.Close()
+	can := mon.StartCanary()
+	defer can.Stop()
+	t0 := time.Now()
+	var wg sync.WaitGroup
+	for g := 0; g < G; g++ {
+		wg.Add(1)
+		go func(g int) {
+			defer wg.Done()
+			for i := 0; i < burst; i++ {
+				rt.Send(gateway.Ind(uint32(g*100000 + i + 1)))
+			}
+		}(g)
+	}
+	if !l.WaitCount(G+1, 5*time.Second) {
+		r.Inconclusive(sig + ": the capture saw no transmissions (no multicast path / capture not working)")
+		wg.Wait()
+		return
+	}
+	tOffer := l.Now()
+	l.Inject((&spec.Frame{Service: spec.SvcRoutingBusy, WaitMs: uint16(wait / time.Millisecond), BusyCtl: 1}).Encode())
+	done := make(chan struct{})
+	go func() { wg.Wait(); close(done) }()
+	select {
+	case <-done:
+	case <-time.After(time.Duration(G*burst)*(pause+time.Millisecond) + 10*time.Second):
+		r.Violate("send.hang", attrs, map[string]interface{}{"scenario": sig}, "[%s] Sends did not all return", sig)
+		return
+	}
+	time.Sleep(5 * time.Millisecond)
+	can.Settle()
+	tol := 1500*time.Microsecond + can.StallSince(t0)
+	fr := l.Frames(0)
+	var tx []time.Duration
+	for _, f := range fr {
+		if p := spec.Parse(f.Bytes); p.OK && p.Service == spec.SvcRoutingInd {
+			tx = append(tx, f.T)
+		}
+	}
+	atomic.AddInt64(&nTx, int64(len(tx)))
+	r.Eval(1)
+	if len(tx) != G*burst {
+		r.Inconclusive(fmt.Sprintf("%s: captured %d of %d transmissions (capture loss); not judged", sig, len(tx), G*burst))
+		return
+	}
+	for i := 1; i < len(tx); i++ {
+		if tx[i]-tx[i-1]+tol < pause {
+			r.Violate("pacing.gap", attrs, map[string]interface{}{"scenario": sig, "gap_us": float64(tx[i]-tx[i-1]) / 1e3, "tolerance_us": float64(tol) / 1e3},
+				"[%s] transmissions #%d and #%d left the host %v apart, closer than the post-send pause %v (tolerance %v)", sig, i-1, i, tx[i]-tx[i-1], pause, tol)
+			return
+		}
+	}
+	w := wait
+	if w > 50*time.Millisecond {
+		w = 50 * time.Millisecond
+	}
+	prev := tOffer
+	found := false
+	nAfter := 0
+	for _, t := range tx {
+		if t <= tOffer {
+			continue
+		}
+		nAfter++
+		if t-prev+tol >= w {
+			found = true
+			break
+		}
+		prev = t
+	}
+	if !found && nAfter > G+2 {
+		r.Violate("busy.ignored", attrs, map[string]interface{}{"scenario": sig, "transmissions_after_busy": nAfter},
+			"[%s] after a busy indication was sent to the group, %d further transmissions left the host with no silence of %v anywhere", sig, nAfter, w)
+		return
+	}
+	atomic.AddInt64(&nScen, 1)
+	atomic.AddInt64(&nBusy, 1)
+	r.DistinctStr(sig)
+}
+
 func gaps(t0 time.Duration, ts []time.Duration, n int) []float64 {
 	var out []float64
 	prev := t0
@@ -387,6 +487,9 @@ func run(rr *mon.Run) {
 		}
 	}
 	runtime.GOMAXPROCS(runtime.NumCPU())
+	for i := 0; i < r.Pick(4, 60) && !r.Enough(); i++ {
+		realRouter(i, 1+i%4, 12, []time.Duration{5 * time.Millisecond, 20 * time.Millisecond, 2 * time.Millisecond}[i%3], []time.Duration{30 * time.Millisecond, 10 * time.Millisecond}[i%2])
+	}
 	r.Observe("scenarios", nScen)
 	r.Observe("routing_indications_on_the_wire", nTx)
 	r.Observe("busy_indications", nBusy)
